@@ -1,5 +1,5 @@
 (** C08 - Cancel is final: canceled tasks never run or report again. *)
-From HQ Require Import Base.Prelude Cluster.Types Cluster.Core Cluster.Reactor Cluster.Worker Cluster.Server Cluster.Sys Cluster.Monitors Cluster.ProofsJob Cluster.ProofsCore Cluster.ProofsMore Cluster.ProofsTerminal Cluster.ProofsStep Cluster.ProofsAll.
+From HQ Require Import Base.Prelude Cluster.Types Cluster.Core Cluster.Reactor Cluster.Worker Cluster.Server Cluster.Sys Cluster.Monitors Cluster.ProofsJob Cluster.ProofsCore Cluster.ProofsMore Cluster.ProofsTerminal Cluster.ProofsStep Cluster.ProofsAll Cluster.RejHyp Cluster.BijFinal Cluster.ReleaseCancel Cluster.ReleaseFree.
 From Coq Require Import ZArith.
 Local Open Scope N_scope.
 
@@ -37,8 +37,52 @@ Theorem C08_cancel_leaves_none : forall s jid j s',
   exists j', find_job (h_jobs (hq_of s')) jid = Some j' /\ cnt (j_tasks j') JW + cnt (j_tasks j') JR = 0.
 Proof. exact cancel_leaves_none. Qed.
 
+(** After a cancel request answered in ANY reachable state, nothing of the job is left anywhere in
+    the scheduler: no task, no entry in a worker's assigned / prefilled set or multi-node slot, no
+    queue entry, no redirect. *)
+Theorem C08_cancel_releases_everything : forall ops reserve maxfill s outs j s' outs',
+  Forall op_wf ops -> run_fresh (init_sys reserve maxfill) ops = true -> run (init_sys reserve maxfill) ops = Ok (s, outs) ->
+  step s (OpCancel j) = Ok (s', outs') ->
+  let c := s_core s' in
+  (forall t, In t (c_tasks c) -> fst (t_id t) <> j) /\
+  (forall wk, In wk (c_workers c) ->
+     match w_assign wk with
+     | Sn a p _ => (forall id, In id a -> fst id <> j) /\ (forall id, In id p -> fst id <> j)
+     | Mn t _ => fst t <> j
+     end) /\
+  (forall q, In q (c_queues c) -> forall id, fst id = j -> in_ready q id = false /\ in_prefill q id = false) /\
+  (forall id v, In (id, v) (c_redirects c) -> fst id <> j).
+Proof. exact cancel_releases_everything. Qed.
+
+(** ... and the resources: the free counter of a worker grows by exactly the requests of the
+    job's tasks in its assigned set (stated relatively: the absolute accounting is refuted by the
+    known finding F23); a worker reserved for a multi-node task of the job is entirely free again. *)
+Theorem C08_cancel_free_counters : forall ops reserve maxfill s outs j jb s' outs' w wk a p f,
+  Forall op_wf ops -> run_fresh (init_sys reserve maxfill) ops = true -> run (init_sys reserve maxfill) ops = Ok (s, outs) ->
+  step s (OpCancel j) = Ok (s', outs') ->
+  find_job (h_jobs (s_hq s)) j = Some jb ->
+  find_worker (c_workers (s_core s)) w = Some wk -> w_assign wk = Sn a p f ->
+  exists wk' a' p', find_worker (c_workers (s_core s')) w = Some wk' /\
+    w_assign wk' = Sn a' p' (fold_left (fun acc id => res_add acc (request_of (s_core s) id)) (filter (fun id => N.eqb (fst id) j) a) f) /\
+    w_res wk' = w_res wk /\
+    (forall id, In id a' -> fst id <> j) /\ (forall id, In id p' -> fst id <> j).
+Proof. exact cancel_free_counters_sum. Qed.
+Theorem C08_cancel_frees_mn_worker : forall ops reserve maxfill s outs j s' outs' w wk mt root,
+  Forall op_wf ops -> run_fresh (init_sys reserve maxfill) ops = true -> run (init_sys reserve maxfill) ops = Ok (s, outs) ->
+  step s (OpCancel j) = Ok (s', outs') ->
+  find_worker (c_workers (s_core s)) w = Some wk -> w_assign wk = Mn mt root -> fst mt = j ->
+  exists wk', find_worker (c_workers (s_core s')) w = Some wk' /\ w_assign wk' = Sn [] [] (w_res wk) /\ w_res wk' = w_res wk.
+Proof. exact cancel_frees_mn_worker. Qed.
+Definition C08_cancel_releases_example := cancel_releases_example.
+Definition C08_cancel_frees_mn_example := cancel_frees_mn_example.
+
 Print Assumptions C08_cancel_leaves_none.
 Print Assumptions C08_terminal_tasks_keep_outcome.
 Print Assumptions C08_cancel_idempotent.
 Print Assumptions C08_only_active_tasks_canceled.
 Print Assumptions C08_worker_cancel_drops_backlog.
+Print Assumptions C08_cancel_releases_everything.
+Print Assumptions C08_cancel_free_counters.
+Print Assumptions C08_cancel_frees_mn_worker.
+Print Assumptions C08_cancel_releases_example.
+Print Assumptions C08_cancel_frees_mn_example.
